@@ -571,6 +571,103 @@ pub fn do_op<K: KeyT, V: ValT>(m: &mut Map<K, V>, w: &[&str], chk: &mut Vec<Stri
             pool.install(|| m.par_extend(items));
             Out::Unit
         }
+        // ---------------- serde (C20) ----------------
+        "serde_de" => {
+            use serde::Deserialize;
+            let hint = if w[1] == "none" { None } else { Some(parse_u64(w[1]) as usize) };
+            let err_at = if w[2] == "-" { None } else { Some(parse_u64(w[2]) as usize) };
+            let pairs: Vec<(u64, u64)> = w[3..]
+                .iter()
+                .map(|t| {
+                    let p: Vec<&str> = t.split(':').collect();
+                    (crate::serdedrv::pack_key(parse_u64(p[0]), parse_u64(p[1])), parse_u64(p[2]))
+                })
+                .collect();
+            let de = crate::serdedrv::ScriptDe { pairs, hint, err_at };
+            match Map::<K, V>::deserialize(de) {
+                Ok(new) => {
+                    let old = std::mem::replace(m, new);
+                    held.push(Box::new(old));
+                    Out::Unit
+                }
+                Err(_) => return OutRaw("err".into()),
+            }
+        }
+        "serde_roundtrip" => {
+            use serde::{Deserialize, Serialize};
+            let toks = m.serialize(crate::serdedrv::Ser).expect("serialize");
+            let pairs = match toks {
+                crate::serdedrv::Tokens::Map(p) => p,
+                _ => panic!("map serialized as a sequence"),
+            };
+            if pairs.len() != m.len() {
+                chk.push(format!("serialize emitted {} entries for {} elements", pairs.len(), m.len()));
+            }
+            let hint = Some(pairs.len());
+            let m2 = Map::<K, V>::deserialize(crate::serdedrv::ScriptDe { pairs, hint, err_at: None }).expect("deserialize");
+            let eq = m2 == *m && *m == m2;
+            let mut a: Vec<(u64, u64, u64)> = m.iter().map(|(k, v)| kvt(k, v)).collect();
+            let mut b: Vec<(u64, u64, u64)> = m2.iter().map(|(k, v)| kvt(k, v)).collect();
+            a.sort();
+            b.sort();
+            if a != b {
+                chk.push("serialize + deserialize does not reproduce the contents".into());
+            }
+            held.push(Box::new(m2));
+            Out::Bool(eq)
+        }
+        "serde_set" => {
+            // serde_set <de|inplace> <hint|none> <err_at|-> ids...   (checked against the set of ids here)
+            use serde::Deserialize;
+            let hint = if w[2] == "none" { None } else { Some(parse_u64(w[2]) as usize) };
+            let err_at = if w[3] == "-" { None } else { Some(parse_u64(w[3]) as usize) };
+            let ids: Vec<u64> = w[4..].iter().map(|s| parse_u64(s)).collect();
+            let pairs: Vec<(u64, u64)> = ids.iter().enumerate().map(|(i, k)| (crate::serdedrv::pack_key(*k, i as u64 + 1), 0)).collect();
+            let de = crate::serdedrv::ScriptDe { pairs, hint, err_at };
+            type S<K> = hashbrown::HashSet<K, PlanBuild, Ledger>;
+            let fails = err_at.map_or(false, |p| p <= ids.len());
+            let r: Result<S<K>, crate::serdedrv::Err> = if w[1] == "inplace" {
+                let mut place: S<K> = hashbrown::HashSet::with_hasher_in(PlanBuild::default(), Ledger);
+                place.insert(K::mk(1_000_000, 1));
+                place.insert(K::mk(1_000_001, 1));
+                match Deserialize::deserialize_in_place(de, &mut place) {
+                    Ok(()) => Ok(place),
+                    Err(e) => Err(e),
+                }
+            } else {
+                S::<K>::deserialize(de)
+            };
+            match r {
+                Ok(set) => {
+                    if fails {
+                        chk.push("deserialization succeeded although the input reported an error".into());
+                    }
+                    let mut got: Vec<u64> = set.iter().map(|k| k.id()).collect();
+                    got.sort();
+                    let mut want: Vec<u64> = ids.clone();
+                    want.sort();
+                    want.dedup();
+                    if got != want {
+                        chk.push(format!("deserialized set holds {:?}, expected {:?}", got, want));
+                    }
+                    // the first occurrence of an equal element is the one kept
+                    for k in set.iter() {
+                        let first = ids.iter().position(|x| *x == k.id()).unwrap() as u64 + 1;
+                        if k.stamp() != first {
+                            chk.push(format!("set element {} kept occurrence {} instead of the first ({})", k.id(), k.stamp(), first));
+                        }
+                    }
+                    held.push(Box::new(set));
+                    Out::Bool(true)
+                }
+                Err(_) => {
+                    if !fails {
+                        chk.push("deserialization failed without an input error".into());
+                    }
+                    Out::Bool(false)
+                }
+            }
+        }
         "len" => Out::Num(m.len() as u128),
         "capacity" => Out::Num(m.capacity() as u128),
         "allocsize" => Out::Num(m.allocation_size() as u128),
